@@ -750,6 +750,9 @@ func runSched(job common.Job, em *emitter) {
 			res.Replay = mustJSON(map[string]interface{}{"scenario": sc})
 			res.Witness = v.Witness[:minInt(len(v.Witness), 60000)]
 		}
+		for k, n := range a.obs {
+			res.Obs["oracle:"+k] += n
+		}
 		res.Obs["frames"] = int64(len(a.frames))
 		res.Obs["client_ops"] = int64(len(rr.hist))
 		res.Obs["delays_applied"] = rr.delaysN.Load()
